@@ -39,6 +39,9 @@ pub struct Case {
     pub durations: Vec<usize>,
     /// per state: (means[nwin*vlen], variances[nwin*vlen], msd)
     pub states: Vec<(Vec<f64>, Vec<f64>, f64)>,
+    /// requests served by the SAME MlpgAdjust object before the checked one (history that must not
+    /// matter): other alignments of the same states, mostly with the same total number of frames
+    pub earlier_durations: Vec<Vec<usize>>,
 }
 
 pub fn solve_dense(mut a: Vec<Vec<f64>>, mut b: Vec<f64>) -> Option<Vec<f64>> {
@@ -174,7 +177,7 @@ impl Prop for MlpgDense {
         "mlpg-dense".into()
     }
     fn rule(&self) -> String {
-        "public MlpgAdjust::new(.., ModelStream{gv: None}).create(durations): 1..60 states, durations 1..8, vector length 1..4, means in [-3,3], variances in [0.05,3], window sets {static; +delta; +delta+accel (width 3); width-5; mixed 3/5; mixed 5/3 (widest window not last)}, exact +-0.0 among the means (a third of the cases), voicing {non-MSD all voiced | random | all unvoiced | islands of 1-2 frames | voiced with short gaps}; compared with the dense solve. Non-trivial: >= 1 dynamic window and >= 2 voiced frames".into()
+        "public MlpgAdjust::new(.., ModelStream{gv: None}).create(durations): 1..60 states, durations 1..8, vector length 1..4, means in [-3,3], variances in [0.05,3], window sets {static; +delta; +delta+accel (width 3); width-5; mixed 3/5; mixed 5/3 (widest window not last)}, exact +-0.0 among the means (a third of the cases); in 30 % of the cases the same MlpgAdjust object first serves 1-2 other alignments of the same states (same total, reordered or shifted; or unrelated), voicing {non-MSD all voiced | random | all unvoiced | islands of 1-2 frames | voiced with short gaps}; compared with the dense solve. Non-trivial: >= 1 dynamic window and >= 2 voiced frames".into()
     }
     fn tape_len(&self, _: Tier) -> usize {
         60 * (4 * 3 * 2 * 4 + 3) + 32
@@ -256,12 +259,42 @@ impl Prop for MlpgDense {
                 (means, vars, msd)
             })
             .collect();
-        let mut c = Case { vector_length, window_set, windows, voicing, threshold, durations, states };
+        let mut c = Case { vector_length, window_set, windows, voicing, threshold, durations, states, earlier_durations: vec![] };
         if vmode == 3 {
             for (i, d) in c.durations.iter_mut().enumerate() {
                 if i % 2 == 1 {
                     *d = 1 + (*d % 2);
                 }
+            }
+        }
+        if t.chance(0.3) {
+            for _ in 0..t.urange(1, 2) {
+                let mut e = c.durations.clone();
+                match t.below(3) {
+                    0 => {
+                        // same multiset of durations in another order: same total
+                        for i in (1..e.len()).rev() {
+                            let j = t.below(i + 1);
+                            e.swap(i, j);
+                        }
+                    }
+                    1 => {
+                        // move frames between states: same total
+                        for _ in 0..t.urange(1, 4) {
+                            let (a, b) = (t.below(e.len()), t.below(e.len()));
+                            if e[a] > 1 {
+                                e[a] -= 1;
+                                e[b] += 1;
+                            }
+                        }
+                    }
+                    _ => {
+                        for d in e.iter_mut() {
+                            *d = t.urange(1, 8);
+                        }
+                    }
+                }
+                c.earlier_durations.push(e);
             }
         }
         c
@@ -277,7 +310,11 @@ impl Prop for MlpgDense {
                 .collect(),
         );
         let ms = ModelStream { vector_length: vl, stream, gv: None, windows: &windows };
-        let out = MlpgAdjust::new(1.0, c.threshold, ms).create(&c.durations);
+        let generator = MlpgAdjust::new(1.0, c.threshold, ms);
+        for e in &c.earlier_durations {
+            let _ = generator.create(e);
+        }
+        let out = generator.create(&c.durations);
         let t_len: usize = c.durations.iter().sum();
         ensure!(out.len() == t_len, "mlpg-frames", "{} frames generated for durations summing to {}", out.len(), t_len);
         // frame -> state
@@ -322,6 +359,7 @@ impl Prop for MlpgDense {
         rep.nontrivial = nw > 1 && nvoiced >= 2;
         rep.class(format!("windows:{}", c.window_set));
         rep.class(format!("voicing:{}", c.voicing));
+        rep.class_if(!c.earlier_durations.is_empty(), "after-other-alignments-on-the-same-object");
         rep.class_if(nvoiced == 0, "no-voiced-frame");
         rep.class_if(worst > 1e-12, "err>1e-12");
         Ok(rep)
